@@ -269,7 +269,22 @@ def rule_5(ctx):
     keys = sorted(ranges) if isinstance(ranges, dict) else ranges
     ctx.expect(isinstance(ranges, dict) and all('$' not in k and k.startswith('Sheet1!') for k in ranges), anchor,
                'range registry keys are qualified and $-free', f'the compiled model registers its ranges under {keys!r}')
-    ctx.floor(12, 'range registry cells')
+    # the same through addresses that name their sheet (the dict reader's other spelling), titles that are prefixes of one another
+    for first, second in (('Data', 'Data2'), ('Sheet1', 'Sheet10'), ('Sheet10', 'Sheet1')):
+        cells = {f'{first}!A1': f'={second}!A1+1', f'{first}!B1': '=A1*2', f'{second}!A1': '=B1+1', f'{second}!B1': 5, f'{second}!C1': '=SUM(A1:B1)*2',
+                 f'{first}!C1': f'=B1+{second}!A1+A1', f'{first}!D1': f'=SUM({second}!A1:B1)+SUM(A1:B1)', f'{first}!E1': f'=SUM($A$1:B$1)+{second}!C1'}
+        want = {f'{first}!A1': 7, f'{first}!B1': 14, f'{first}!C1': 27, f'{first}!D1': 32, f'{second}!C1': 22, f'{first}!E1': 43}
+        wb = W.Workbook(ctx, cells)
+        for a, w in want.items():
+            got = wb.value(a)
+            ctx.expect(S.same(got, w), anchor, f'range registry, sheets {first}/{second}: {a.partition("!")[2]}',
+                       f'{a} = {cells[a]} evaluates to {got!r}, expected {w!r} in {cells}: an unqualified reference or range means the sheet of the cell that '
+                       'holds the formula, whatever the default sheet of the reader is')
+        ranges = wb.model.f.get('ranges')
+        keys = sorted(ranges) if isinstance(ranges, dict) else ranges
+        ctx.expect(isinstance(ranges, dict) and sorted(ranges) == sorted([f'{first}!A1:B1', f'{second}!A1:B1']), anchor,
+                   f'range registry keys, sheets {first}/{second}', f'the compiled model registers its ranges under {keys!r}')
+    ctx.floor(30, 'range registry cells')
 
 
 def rule_6(ctx):
